@@ -1,6 +1,7 @@
 package checks
 
 import (
+	"bytes"
 	"fmt"
 	"io"
 	"os"
@@ -101,12 +102,40 @@ func buildISOWith(t *treeSpec, opts iso9660.FinalizeOptions, blocksize, start in
 	return buildISOSized(t, opts, blocksize, start, size, monitor)
 }
 
+// dirtyRange fills [lo,hi) with non-zero junk (not logged, not monitored): the range a filesystem is given held something
+// else before - an older image, another filesystem. Whatever the new image needs to be zero it has to write itself.
+func dirtyRange(d *memdev.Dev, lo, hi int64) {
+	if hi-lo > 48<<20 {
+		hi = lo + 48<<20
+	}
+	junk := bytes.Repeat([]byte{0xA5, 0x5A, 0xC3, 0x3C, 0x96}, 1<<16/5+1)[:1<<16]
+	for off := lo; off < hi; off += int64(len(junk)) {
+		k := int64(len(junk))
+		if off+k > hi {
+			k = hi - off
+		}
+		d.Poke(junk[:k], off)
+	}
+}
+
+// highestWrite is the end of the highest byte range written to the device (from its event log).
+func highestWrite(d *memdev.Dev) int64 {
+	hi := int64(0)
+	for _, e := range d.Events {
+		if e.Kind == memdev.EvWrite && e.Off+int64(e.Len) > hi {
+			hi = e.Off + int64(e.Len)
+		}
+	}
+	return hi
+}
+
 // buildISOSized: the range given to the filesystem is exactly [start, start+size).
 func buildISOSized(t *treeSpec, opts iso9660.FinalizeOptions, blocksize, start, size int64, monitor bool) (img *isoImage, err error) {
 	d := memdev.New(start + size + 64<<10)
+	dirtyRange(d, start, start+size)
+	d.LogEvents = true
 	if monitor {
 		d.Allowed = []memdev.Range{{Lo: start, Hi: start + size}}
-		d.LogEvents = true
 	}
 	var fs *iso9660.FileSystem
 	if pm := guard(func() {
@@ -155,9 +184,10 @@ func buildSquashWith(t *treeSpec, opts squashfs.FinalizeOptions, blocksize, star
 // buildSquashSized: the range given to the filesystem is exactly [start, start+size).
 func buildSquashSized(t *treeSpec, opts squashfs.FinalizeOptions, blocksize, start, size int64, monitor bool) (img *sqImage, err error) {
 	d := memdev.New(start + size + 64<<10)
+	dirtyRange(d, start, start+size)
+	d.LogEvents = true
 	if monitor {
 		d.Allowed = []memdev.Range{{Lo: start, Hi: start + size}}
-		d.LogEvents = true
 	}
 	var fs *squashfs.FileSystem
 	if pm := guard(func() {
